@@ -414,6 +414,17 @@ class XArray:
     def __rmatmul__(self, o):
         return matmul(XArray.from_nested(o), self)
 
+    def mean(self, axis=None, keepdims=False, **kw):
+        n = self.size if axis is None else self.shape[axis]
+        tot = self.sum(axis)
+        from fractions import Fraction as _Q
+
+        res = tot * _Q(1, n)
+        if keepdims and axis is not None and isinstance(res, XArray):
+            ax = axis % self.ndim
+            res = XArray(self.shape[:ax] + (1,) + self.shape[ax + 1:], res.data)
+        return res
+
     def sum(self, axis=None):
         if axis is None:
             tot = 0
